@@ -687,6 +687,81 @@ func isUnsafeType(t types.Type) (string, bool) {
 	return "", false
 }
 
+// selfLocking: a method of a repository type that takes a mutex field of its own receiver before
+// touching the receiver's not-goroutine-safe fields or storing into it, and holds it for all of them.
+func selfLocking(f *ssa.Function) bool {
+	if f == nil || len(f.Blocks) == 0 || len(f.Params) == 0 || f.Signature.Recv() == nil {
+		return false
+	}
+	ls := computeLockset(f)
+	if len(ls.Locks) == 0 {
+		return false
+	}
+	recv := f.Params[0]
+	rooted := func(v ssa.Value) bool {
+		for k := 0; k < 10 && v != nil; k++ {
+			switch x := v.(type) {
+			case *ssa.Parameter:
+				return x == recv
+			case *ssa.FieldAddr:
+				v = x.X
+			case *ssa.UnOp:
+				v = x.X
+			case *ssa.Field:
+				v = x.X
+			default:
+				return false
+			}
+		}
+		return false
+	}
+	for _, l := range ls.Locks {
+		if !rooted(l.(*ssa.Call).Call.Args[0]) {
+			return false
+		}
+		// released on every path (explicitly, or by a deferred Unlock registered right away)
+		mu := mutexPath(l.(*ssa.Call).Call.Args[0])
+		set := explore(l, false, func(i ssa.Instruction) bool {
+			if isCallTo(i, "(*sync.Mutex).Unlock", "(*sync.RWMutex).Unlock") {
+				if ci, ok := i.(ssa.CallInstruction); ok && mutexPath(ci.Common().Args[0]) == mu {
+					return true
+				}
+			}
+			return false
+		})
+		if len(returnsIn(set)) > 0 {
+			return false
+		}
+	}
+	ok := true
+	eachInstr(f, func(i ssa.Instruction) {
+		switch x := i.(type) {
+		case ssa.CallInstruction:
+			cc := x.Common()
+			n := callName(cc)
+			if lockCalls[n] || unlockCalls[n] {
+				return
+			}
+			var r ssa.Value
+			if cc.IsInvoke() {
+				r = cc.Value
+			} else if len(cc.Args) > 0 && cc.StaticCallee() != nil && cc.StaticCallee().Signature.Recv() != nil {
+				r = cc.Args[0]
+			}
+			if r != nil && rooted(r) {
+				if _, unsafe := isUnsafeType(r.Type()); unsafe && len(ls.Held(i)) == 0 {
+					ok = false
+				}
+			}
+		case *ssa.Store:
+			if rooted(x.Addr) && len(ls.Held(i)) == 0 {
+				ok = false
+			}
+		}
+	})
+	return ok
+}
+
 var aliasingReads = map[string]bool{
 	"(*bufio.Reader).ReadSlice": true, "(*bufio.Reader).ReadLine": true, "(*bufio.Reader).Peek": true,
 	"(*bufio.Scanner).Bytes": true,
@@ -770,7 +845,7 @@ func runC15(c *Ctx) {
 					return
 				}
 				if _, unsafe := isUnsafeType(recv.Type()); unsafe {
-					if heldAny(i) {
+					if heldAny(i) || selfLocking(cc.StaticCallee()) {
 						nGuarded++
 					} else {
 						unsafeSites = append(unsafeSites, i)
